@@ -46,6 +46,12 @@ def is_ptr_type(t):
     return bool(t) and t.rstrip().endswith('*')
 
 
+def is_int_type(n):
+    """the expression node has an integer type (not floating, not a pointer)"""
+    t = (n.dtype or n.type or '')
+    return bool(t) and 'double' not in t and 'float' not in t and '*' not in t and '[' not in t and '(' not in t
+
+
 def rec_of(t):
     """record/typedef name a (pointer-to-)struct type is spelled with, else None"""
     if not t:
@@ -66,9 +72,9 @@ def pointee(t):
 
 
 class Val:
-    __slots__ = ('path', 'nul', 'src', 'vs', 'const', 'ename', 'rk', 'ctype', 'addr_of', 'objk')
+    __slots__ = ('path', 'nul', 'src', 'vs', 'const', 'ename', 'rk', 'ctype', 'addr_of', 'objk', 'zp')
 
-    def __init__(self, path=None, nul=None, src=None, vs=None, const=None, ename=None, rk=None, ctype=None, addr_of=None, objk=None):
+    def __init__(self, path=None, nul=None, src=None, vs=None, const=None, ename=None, rk=None, ctype=None, addr_of=None, objk=None, zp=None):
         self.path = path      # access path of the lvalue this value was read from
         self.nul = nul        # None | 'NN' | 'NULL' | 'N' | 'U'
         self.src = src        # provenance of a nullable value: (kind, text)
@@ -79,6 +85,7 @@ class Val:
         self.ctype = ctype
         self.addr_of = addr_of
         self.objk = objk      # kind of the freshly constructed object this struct value was read from (`*new_x(K)`)
+        self.zp = zp          # integer value that is zero exactly when this path is zero (`path * 8`, `-path`)
 
 
 UNKNOWN = Val()
@@ -265,6 +272,10 @@ class World:
         self.kept = {}              # fname -> {'pred': bool, 'T'|'F'|'A': set of parameter indices the function never stores through on that outcome}
         self.entry_facts = {}       # (unit, fname) -> set of (parameter index, suffix): every caller passes an element that is not the end marker
         self.cursor_compare = {}    # (unit, fname) -> why: in this function `c != e` for two cursors means c is before e in the list (c is not the marker)
+        self.zero_fields = {}       # (record, field) -> why: integer fields that hold a value of the input (any value, 0 included)
+        self.zero_rets = {}         # fname -> src: integer functions that can return such a value (derived, transitively)
+        self.mustdiv = {}           # (fname, i) -> True: the function divides by its i-th parameter unconditionally (one-level summaries, transitive)
+        self.evaluators = set()     # functions that compute the value of an expression node (first parameter): outcomes of tests on their results are remembered
         self.enum_universe = {}
         for u in self.units.values():
             for en, names in u.enum_types.items():
@@ -483,6 +494,13 @@ class Engine:
         self.ret_consts = []   # per value-return: frozenset of enumerators | None (unknown)
         self.gstores = []      # (global name, frozenset of enumerators | None)
         self.links = []        # (MemberExpr, base path, base known not to be the end marker, kind fact) per load of a marker-ended list's link field
+        # host arithmetic (division by a value of the input)
+        self.divs = {}         # (node id, how) -> dict: integer divisions / arguments handed to a parameter the callee divides by
+        self.mustdiv = set()   # indices of parameters this function divides by unconditionally
+        self.zrets = []        # sources of may-be-zero input values this function returns
+        self.fstores = []      # (record, field, class, src, node): stores of integer values into record fields
+        self.evlocals = {}     # local (declared with an initializer, never assigned again) -> key of the evaluator call it holds
+        self.ev_black = set()
 
     # ---- paths ---------------------------------------------------------------
     def root_path(self, n):
@@ -568,6 +586,9 @@ class Engine:
                     if not (kf and kf[0] == 'in' and kf[1] <= ow[1]):
                         return None, None
                 return 'N', ('field', '%s.%s' % (rec, field), e.get('why', ''), base_path, getattr(node, 'line', None))
+            z = self.W.zero_fields.get((rec, field))
+            if z is not None:
+                return 'N', ('zero', '%s.%s' % (rec, field), z)
             return None, None
         return None, None
 
@@ -786,7 +807,10 @@ class Engine:
                 c = None
                 if v.const is not None:
                     c = -v.const if op == '-' else (v.const if op == '+' else ~v.const)
-                out.append((s, Val(const=c)))
+                r = Val(const=c)
+                if op != '~' and c is None and not is_ptr_type(sub.type):
+                    r.nul, r.src, r.zp = v.nul, v.src, (v.path if v.path is not None else v.zp)   # -x is zero exactly when x is
+                out.append((s, r))
             return out
         return self.ev(sub, S)   # __extension__ and friends
 
@@ -874,6 +898,12 @@ class Engine:
             root_end += 1
         if root_end == len(p) and not decl:
             self.assigned_params.add(p)
+        if root_end == len(p):
+            if decl and isinstance(v.ctype, tuple) and v.path is None and v.ctype[0].startswith('value-of(') and p not in self.ev_black:
+                self.evlocals[p] = v.ctype
+            elif not decl:
+                self.evlocals.pop(p, None)
+                self.ev_black.add(p)
         moved = None
         if v.path is not None and v.path != p and _ext(p, v.path):
             # cursor advance `p = p->next`: what is known about the successor is known about the cursor afterwards
@@ -933,6 +963,7 @@ class Engine:
                     if p is not None:
                         self.assign_path(s2, p, v, e)
                         self.note_store(s2, a, p)
+                    self.note_fstore(s2, a, v, e)
                     out.append((s2, Val(path=p, nul=v.nul, src=v.src, const=v.const, ename=v.ename, vs=v.vs)))
             return out
         if op == ',':
@@ -960,13 +991,111 @@ class Engine:
                                '/': lambda: int(x / y) if y else None, '%': lambda: (x - int(x / y) * y) if y else None}.get(op, lambda: None)()
                 except Exception:
                     r.const = None
+            if op == '*' and r.const is None and is_int_type(e):
+                ca, cb = self.zclass(s, va), self.zclass(s, vb)
+                if 'z' in (ca, cb):
+                    r.nul, r.src = 'N', (va.src if ca == 'z' else vb.src)        # a product with a may-be-zero factor
+                elif ca == 'nz' and cb == 'nz':
+                    r.nul = 'NN'
+                    r.src = va.src if (va.src and va.src[0] == 'zero') else (vb.src if (vb.src and vb.src[0] == 'zero') else None)
+                for x, cx, y in ((va, ca, vb), (vb, cb, va)):
+                    if cx == 'nz' and x.const is not None and x.path is None:
+                        r.zp = y.path if y.path is not None else y.zp             # path * c is zero exactly when path is
+            if op in ('/', '%') and is_int_type(e):
+                self.note_div(s, e, op, va, vb, b)
             out.append((s, r))
         return out
+
+    # ---- host arithmetic ---------------------------------------------------------
+    def zclass(self, S, v):
+        """'nz' the integer value is known not to be 0 | 'z' it comes from a source that can be 0 and no fact excludes it | 'zero' | None (not known)"""
+        if v is None:
+            return None
+        if v.const is not None and v.path is None:
+            return 'nz' if v.const != 0 else 'zero'
+        for q in (v.path, v.zp):
+            if q is None:
+                continue
+            for q2 in (q, S.ali.get(q)):
+                if q2 is None:
+                    continue
+                f = S.nul.get(q2)
+                if f is not None and f[0] == 'NN':
+                    return 'nz'
+                w = S.vs.get(q2)
+                if w is not None and ((w[0] == 'in' and 0 not in w[1] and all(isinstance(x, int) for x in w[1])) or (w[0] == 'notin' and 0 in w[1])):
+                    return 'nz'
+        if v.nul == 'NN':
+            return 'nz'
+        if v.nul in ('N', 'NULL') and v.src is not None and v.src[0] == 'zero':
+            return 'z'
+        if v.nul == 'NULL' and v.path is not None:
+            return 'zero'
+        return None
+
+    def excludes(self, S, v, c):
+        """a value-set fact says that the value is not the constant c"""
+        if v.const is not None and v.path is None:
+            return v.const != c
+        for q in (v.path,):
+            if q is None:
+                continue
+            for q2 in (q, S.ali.get(q)):
+                w = S.vs.get(q2) if q2 is not None else None
+                if w is not None and ((w[0] == 'in' and c not in w[1] and all(isinstance(x, int) for x in w[1])) or (w[0] == 'notin' and c in w[1])):
+                    return True
+        return False
+
+    def note_div(self, S, node, how, va, vb, dnode):
+        """an integer division / remainder whose divisor evaluated to vb (how: '/', '%', or 'argN of f()' for a parameter the callee divides by)"""
+        cls = self.zclass(S, vb)
+        q = vb.path if vb.path is not None else vb.zp
+        if q is not None and cls != 'nz':
+            root = S.ali.get(q, q)
+            if '@' in root and root.split('@', 1)[1] in self.param_idx and root not in self.assigned_params and self.depth == 0 and not self.exited:
+                self.mustdiv.add(self.param_idx[root.split('@', 1)[1]])
+        t = (node.dtype or node.type or '')
+        signed = 'unsigned' not in t and t not in ('_Bool', 'bool')
+        ovf = None
+        if how in ('/', '%') and signed and va is not None:
+            inp = lambda v: v.src is not None and v.src[0] == 'zero'
+            if inp(va) and inp(vb) and va.const is None and vb.const is None:
+                # both operands are values of the input: the most negative value divided by -1 traps on the host like a zero divisor
+                ovf = 'ok' if self.excludes(S, vb, -1) else 'bad'
+        rel = any((x + '#rel') in S.vs for x in (vb.path, vb.zp, S.ali.get(vb.path) if vb.path else None) if x)
+        key = (node.id, how)
+        rank = {'zero': 4, 'z': 3, None: 2, 'nz': 1}
+        new = {'node': node, 'how': how, 'cls': cls, 'src': vb.src, 'path': q, 'alias': S.ali.get(q) if q else None, 'ctx': self.context(S), 'signed': signed, 'ovf': ovf, 'rel': rel,
+               'dnode': dnode, 'const': vb.const if vb.path is None else None}
+        old = self.divs.get(key)
+        if old is not None:
+            # the same site reached in another state: the worst classification is kept
+            worse, other = (new, old) if rank[new['cls']] > rank[old['cls']] else (old, new)
+            worse = dict(worse)
+            worse['ovf'] = 'bad' if 'bad' in (old['ovf'], new['ovf']) else (worse['ovf'] or other['ovf'])
+            worse['rel'] = old['rel'] or new['rel']
+            new = worse
+        self.divs[key] = new
+
+    def note_fstore(self, S, lhs, v, node):
+        """store of an integer value into a record field (for the rule on fields that are used as divisors)"""
+        e = lhs
+        while e.kind in TRANSPARENT:
+            e = e.inner[0]
+        if e.kind != 'MemberExpr' or is_ptr_type(e.type) or not is_int_type(e):
+            return
+        bt = e.inner[0].type or ''
+        rec = rec_of(pointee(bt) if e.d.get('isArrow') else bt)
+        if rec is None:
+            return
+        self.fstores.append((rec, e.name, self.zclass(S, v), v.src, node))
 
     def e_CompoundAssignOperator(self, e, S):
         out = []
         for s, p, _ in self.lv(e.inner[0], S):
             for s2, v in self.ev(e.inner[1], s):
+                if e.opcode in ('/=', '%=') and is_int_type(e):
+                    self.note_div(s2, e, e.opcode[0], None, v, e.inner[1])
                 if p is not None:
                     old = s2.nul.get(p)
                     self.assign_path(s2, p, UNKNOWN, e)
@@ -1123,6 +1252,8 @@ class Engine:
                     self.null_args[(c, i)] = v.src or ('arg', 'NULL is passed by %s()' % self.fname)
             if self.W.mustderef.get((c, i)):
                 self.check_deref(s, v, args[i], 'arg%d of %s()' % (i + 1, c))
+            if self.W.mustdiv.get((c, i)) and self.W.resolve(self.u, c) is not None:
+                self.note_div(s, args[i], 'arg%d of %s()' % (i + 1, c), None, v, args[i])
         if c in self.W.noreturn:
             self.exited = True
             return
@@ -1157,6 +1288,12 @@ class Engine:
         rv = self.W.ret_vals.get(c)
         if rv and r.vs is None:
             r.vs = ('in', rv)
+        zs = self.W.zero_rets.get(c)
+        if zs is not None and r.nul is None and not is_ptr_type(e.type) and self.W.resolve(self.u, c) is not None:
+            r.nul, r.src = 'N', zs
+        if c in self.W.evaluators and vals and vals[0].path is not None:
+            # the value of an expression node: a test of it is remembered (which operands the code evaluates under which outcome)
+            r.ctype = ('value-of(%s)' % vals[0].path, frozenset([vals[0].path]))
         if c in self.W.pure and not is_ptr_type(e.type) and (c, tuple(a.src() for a in args)) in self.repeated_pure:
             pk = self.pure_key(c, args, vals)
             if pk is not None:
@@ -1276,8 +1413,22 @@ class Engine:
                         for v in (va, vb):
                             if v.path is not None:
                                 s.vs[v.path + '#rel'] = ('in', frozenset([1]))
+                        f = s.copy()
+                        # a may-be-zero input value compared with a constant: the outcomes that exclude 0
+                        for pv, cv, o in ((va, vb, op), (vb, va, {'<': '>', '>': '<', '<=': '>=', '>=': '<='}[op])):
+                            if pv.path is None or cv.const is None or cv.path is not None or not self.is_zero_tracked(s, pv):
+                                continue
+                            c = cv.const
+                            t_nz = (o == '>' and c >= 0) or (o == '>=' and c >= 1) or (o == '<' and c <= 0) or (o == '<=' and c <= -1)
+                            f_nz = (o == '<=' and c >= 0) or (o == '<' and c >= 1) or (o == '>=' and c <= 0) or (o == '>' and c <= -1)
+                            if t_nz:
+                                s.nul[pv.path] = ('NN', pv.src)
+                                s.vs.pop(pv.path + '#rel', None)
+                            if f_nz:
+                                f.nul[pv.path] = ('NN', pv.src)
+                                f.vs.pop(pv.path + '#rel', None)
                         T.append(s)
-                        F.append(s.copy())
+                        F.append(f)
                 return T, F
             if op == ',':
                 T, F = [], []
@@ -1330,8 +1481,18 @@ class Engine:
             T, F = S, S.copy()
             T.nul[v.path] = ('NN', v.src if v.nul == 'N' else None)
             F.nul[v.path] = ('NULL', v.src if v.nul == 'N' else None)
+            self.ev_outcome(v.path, T, F)
             return [T], [F]
         return [S], [S.copy()]
+
+    def ev_outcome(self, path, T, F):
+        """the tested local holds the result of an evaluator call: remember the outcome like a test of the call itself"""
+        pk = self.evlocals.get(path)
+        if pk is not None and not any(_root(q) in self.assigned_params for q in pk[1]):
+            if T is not None:
+                T.pc[pk[0]] = (True, pk[1])
+            if F is not None:
+                F.pc[pk[0]] = (False, pk[1])
 
     def set_vs(self, S, path, fact):
         S.vs[path] = fact
@@ -1348,8 +1509,29 @@ class Engine:
         en = self.u.enum_of.get(ename)
         return self.W.enum_universe.get(en) if en else None
 
+    def is_zero_tracked(self, S, v):
+        """v is a path holding an integer value of the input that can be 0 (or the result of an evaluator call)"""
+        if v.path is None:
+            return False
+        if v.path in self.evlocals:
+            return True
+        return v.src is not None and v.src[0] == 'zero' and v.nul in ('N', 'NN', 'NULL')
+
     def compare(self, S, va, vb, na, nb):
         """states where va == vb, states where va != vb"""
+        T, F = self.compare0(S, va, vb, na, nb)
+        for pv, cv in ((va, vb), (vb, va)):
+            if pv.path is not None and cv.path is None and cv.const == 0 and not is_ptr_type(na.type) and self.is_zero_tracked(S, pv):
+                # `x == 0` on a tracked integer: the same facts as `!x`
+                for st in T:
+                    st.nul[pv.path] = ('NULL', pv.src)
+                    self.ev_outcome(pv.path, None, st)
+                for st in F:
+                    st.nul[pv.path] = ('NN', pv.src)
+                    self.ev_outcome(pv.path, st, None)
+        return T, F
+
+    def compare0(self, S, va, vb, na, nb):
         # constant on the left: swap
         if (va.const is not None or va.nul == 'NULL') and va.path is None and not (vb.const is not None and vb.path is None):
             va, vb, na, nb = vb, va, nb, na
@@ -1579,6 +1761,8 @@ class Engine:
                         else:
                             rk = '?'
                     self.returns.append((v.nul, v.src, rk if rk is not None else '?'))
+                    if v.src is not None and v.src[0] == 'zero' and self.zclass(s2, v) == 'z':
+                        self.zrets.append(v.src)
                     self.ret_facts.append((v.const if v.path is None else None, s2))
                     self.ret_consts.append(self.enum_set(v))
                     if self.keep_exit_states:
@@ -1847,7 +2031,14 @@ def solve(W, max_rounds=12):
                     if (c, i) not in W.nullable_params:
                         W.nullable_params[(c, i)] = ('param', 'NULL can be passed by %s()' % f)
                         touched.add('=' + c)
+                for i in eng.mustdiv:
+                    if not W.mustdiv.get((f, i)) and len(W.fn_unit.get(f, ())) == 1:
+                        W.mustdiv[(f, i)] = True
+                        touched.add(f)
                 rt = (eng.fd.type or '').split('(')[0].strip()
+                if eng.zrets and f not in W.zero_rets and not is_ptr_type(rt) and rt not in ('void', '_Bool', 'bool', 'double', 'float', 'long double') and len(W.fn_unit.get(f, ())) == 1:
+                    W.zero_rets[f] = ('zero', '%s()' % f, 'it can return a value of the input: %s' % eng.zrets[0][1])
+                    touched.add(f)
                 if is_ptr_type(rt) and f not in W.nullable_rets:
                     for nul, src, rk in eng.returns:
                         if nul == 'NULL' or (nul == 'N' and src is not None and src[0] in PROPAGATING):
